@@ -1818,12 +1818,20 @@ def eager_getslice_lambda(op, x):
     index = normalize_ellipsis(op.defaults["index"], len(x.shape))
     head, tail = index[0], index[1:]
     expr = x.expr
-    if head != slice(None):
-        expr = expr(**{x.var.name: head})
+    var = x.var
+    if isinstance(head, slice) and var.name not in expr.inputs:
+        # expr is constant along the bound variable; slicing only resizes it.
+        start, stop, step = parse_slice(head, var.output.size)
+        var = Variable(var.name, Bint[max(0, (stop - start + step - 1) // step)])
+        preserved = True
+    else:
+        if head != slice(None):
+            expr = expr(**{var.name: head})
+        preserved = var.name in expr.inputs
     if tail:
         expr = ops.getslice(expr, tail)
-    if x.var.name in expr.inputs:  # dim is preserved, e.g. x[1:]
-        return Lambda(x.var, expr)
+    if preserved:  # dim is preserved, e.g. x[1:]
+        return Lambda(var, expr)
     else:  # dim is eliminated, e.g. x[0]
         return expr
 
